@@ -129,6 +129,12 @@ func (d *Duties) LastFetch() (map[uint64]bool, map[uint64]bool) {
 	return a, p
 }
 
+// Busy marks (delta +1) and unmarks (delta -1) work in progress in a plugged-in service, so that Settle waits for it.
+func (e *Env) Busy(delta int64) {
+	e.inflight.Add(delta)
+	e.activity.Add(1)
+}
+
 // Recorded returns a copy of the events.
 func (e *Env) Recorded() []Event {
 	e.mu.Lock()
